@@ -45,10 +45,13 @@ with that same coin as destination coin. -/
 theorem c16_same_coin (wr : Wiring) (c c' : Ctx) (pkt : Packet) (t : TransferAttrs) (p : Payload)
     (ha : adaptPacket wr pkt = .ok (.orbiter t p)) (hi : ics20Recv wr.cfg c pkt = .ok c') :
     c'.moves = c.moves ++ [.xfer (wr.cfg.escrow pkt.dstPort pkt.dstChan) wr.cfg.orbAddr t.srcDenom t.srcAmount.toNat] ∧
-    t.dstDenom = t.srcDenom ∧ t.dstAmount = t.srcAmount := by
+    t.dstDenom = t.srcDenom ∧ t.dstAmount = t.srcAmount ∧
+    c.bank.send (wr.cfg.escrow pkt.dstPort pkt.dstChan) wr.cfg.orbAddr t.srcDenom t.srcAmount.toNat = some c'.bank := by
   obtain ⟨_, _, hdd, hda, d, hd, hamt, hr⟩ := C12.c12_source_from_packet wr pkt t p ha
   obtain ⟨h1, h2, h3⟩ := (c16_accept_iff _ _ _ _).mp hr
-  refine ⟨?_, hdd, hda⟩
+  suffices key : c'.moves = c.moves ++ [.xfer (wr.cfg.escrow pkt.dstPort pkt.dstChan) wr.cfg.orbAddr t.srcDenom t.srcAmount.toNat] ∧
+      c.bank.send (wr.cfg.escrow pkt.dstPort pkt.dstChan) wr.cfg.orbAddr t.srcDenom t.srcAmount.toNat = some c'.bank from
+    ⟨key.1, hdd, hda, key.2⟩
   -- the receiver is the orbiter account
   have hrecv : accAddressFromBech32 wr.cfg.hrp d.receiver = some wr.cfg.orbAddr := by
     unfold adaptPacket at ha
@@ -75,12 +78,12 @@ theorem c16_same_coin (wr : Wiring) (c c' : Ctx) (pkt : Packet) (t : TransferAtt
     rw [← h2]
     simp [h3]
   rw [hden] at hs
-  obtain ⟨b, _, rfl⟩ := Ctx.send_ok hs
+  obtain ⟨b, hb, rfl⟩ := Ctx.send_ok hs
   split at hi
   · cases hi
   · simp only [Res.ok.injEq] at hi
     subst hi
-    rfl
+    exact ⟨rfl, hb⟩
 
 /-! ### non-vacuity
 `String.startsWith` / `String.drop` do not reduce in the kernel, so the satisfiability of the hypotheses is
